@@ -1118,11 +1118,11 @@ def reshape_from_space(tensor: TorchObsType, space: spaces.Space) -> TorchObsTyp
             reshape_from_space(value, space[i]) for i, value in enumerate(tensor)
         )
     else:
-        #
+        # NOTE: Only the trailing singleton dimension is squeezed, the leading one is
+        # the batch dimension and must survive for batches with a single row
         reshaped: torch.Tensor = tensor.reshape(-1, *space.shape)
-        for squeeze_dim in [0, -1]:
-            if reshaped.size(squeeze_dim) == 1:
-                reshaped = reshaped.squeeze(squeeze_dim)
+        if reshaped.ndim > 1 and reshaped.size(-1) == 1:
+            reshaped = reshaped.squeeze(-1)
         return reshaped
 
 
